@@ -144,9 +144,10 @@ def strip_comments(src):
 def prop_files(prop_id):
     """Properties/Cxx.v plus layer-specific companions such as Properties/CxxL1.v."""
     d = os.path.join(COQ, "Properties")
+    listed = set(l.strip() for l in open(os.path.join(COQ, "_CoqProject")))
     out = []
     for fn in sorted(os.listdir(d)):
-        if re.match(r"^%s([A-Z][A-Za-z0-9]*)?\.v$" % re.escape(prop_id), fn):
+        if re.match(r"^%s([A-Z][A-Za-z0-9]*)?\.v$" % re.escape(prop_id), fn) and ("Properties/" + fn) in listed:
             out.append("Properties/" + fn)
     return out
 
